@@ -17,11 +17,11 @@ func init() {
 		Cases: func(tier string) int {
 			switch tier {
 			case "thorough":
-				return len(c07Enum) + 2500000
+				return len(c07Enum) + 8000000
 			case "race":
 				return 60000
 			}
-			return 400000
+			return 1500000
 		},
 		Run:            c07Run,
 		Floor:          func(tier string) int { return 5000 },
